@@ -76,6 +76,8 @@ type regSpec struct {
 }
 
 func runC15(w *World, r *Report) {
+	r.Rule("shiftwidth", "no shift by a constant count that is as large as its operand's type (the value would always be 0: bits lost before widening)", 1)
+	shiftWidthRule(w, r, "shiftwidth", func(fi *FuncInfo) bool { return fi.Pkg.Types.Name() == "openflow13" })
 	r.Rule("stateless", "lookups depend on no package-level state that a call can change and race on none", 8)
 	importStateless(w, r, "stateless")
 	r.Rule("registry", "each registry entry equals its specification row (class, field number, width)", 120)
